@@ -32,6 +32,11 @@ using namespace vf;
 
 namespace {
 
+// callbacks handed to a start call on a library that is already running: they must never be used
+ref::Bytes &alt_written() { static ref::Bytes b; return b; }
+uint8_t alt_read(int *ok) { *ok = 0; return 0; }
+void alt_write(uint8_t *d, int32_t n) { alt_written().insert(alt_written().end(), d, d + n); }
+
 struct Recipe {
 	int mode;            // 0 normal ok, 1 normal silent bus, 2 normal faulty config, 3 debug
 	unsigned flush;
@@ -102,7 +107,7 @@ void prop(DP &dp, const ref::Bytes &sched, Ctx &ctx) {
 	unsigned nsess = (unsigned) dp.range(1, 5);
 	std::vector<Recipe> recipes;
 	std::vector<Outcome> outcomes;
-	bool had_failed_then_ok = false, diff_flush = false, repeated = false;
+	bool had_failed_then_ok = false, diff_flush = false, repeated = false, mid_start = false;
 	bool last_failed = false;
 	bool unanswered_to_output = false;     // requests to a track output are unanswered (younger than the 2 s expiry) when stop is called
 	std::set<unsigned> flushes;
@@ -232,6 +237,46 @@ void prop(DP &dp, const ref::Bytes &sched, Ctx &ctx) {
 			for (int q = sp.range(0, 4); q > 0; q--) s.inject_packet({m});
 			if (sp.flag()) s.advance((uint64_t) sp.range(1, 120) * 1000);
 		}
+		// ---- a start call in the middle of the running session, with other callbacks and pending work: it must be a no-op
+		// not only at the moment of the call (no byte, no thread) but also for what follows - the buffered request still goes
+		// out through the session's own connection, unread messages are still there, nothing ever reaches the other callbacks
+		if (sp.chance(100)) {
+			ctx.desc << "  start (other callbacks) while running, with pending work\n";
+			bidib_flush();
+			s.settle();
+			Session::drain_messages();
+			const uint8_t marker = 0xA7;
+			ref::Msg pong{r.mode == 3 ? ref::Bytes{1} : ref::Bytes{}, 0, M::SYS_PONG, {marker}};
+			if (r.mode == 3) { pong.seq = 0; s.inject_packet({pong}); }
+			else n.bus.send_from(0, M::SYS_PONG, {marker});
+			s.settle();
+			bool buffered = false;
+			t_bidib_node_address fresh = {0x55, 0, 0};
+			if (r.mode == 3 && r.flush == 0) { bidib_send_sys_get_magic(fresh, 0); buffered = true; }        // nothing flushes it but an explicit flush
+			size_t mark_mid = s.down.size();
+			alt_written().clear();
+			quiet_call("bidib_start_pointer (other callbacks) while running", [&] { return bidib_start_pointer(alt_read, alt_write, r.mode == 3 ? NULL : "/vf/cfg", r.flush); }, 0);
+			bidib_flush();
+			s.settle();
+			if (!alt_written().empty()) ctx.fail("NOOP: after a start call on the running library " + std::to_string(alt_written().size()) + " bytes were written to the callbacks of that call: " + hex(alt_written()));
+			if (buffered) {
+				std::string err;
+				bool seen = false;
+				for (auto &m : s.msgs_since(mark_mid, &err)) if (m.type == M::SYS_GET_MAGIC && m.addr == ref::Bytes{0x55}) seen = true;
+				if (!seen) ctx.fail("NOOP: a request buffered before a start call on the running library never reached the wire after bidib_flush");
+			}
+			bool got = false;
+			for (;;) {
+				uint8_t *mm = bidib_read_message();
+				if (!mm) break;
+				ref::Bytes raw(mm, mm + mm[0] + 1);
+				free(mm);
+				if (raw.size() >= 2 && raw[raw.size() - 1] == marker) got = true;
+			}
+			if (!got) ctx.fail("NOOP: a message received before a start call on the running library can no longer be read (bidib_read_message)");
+			alt_written().clear();
+			mid_start = true;
+		}
 		// ---- stop
 		std::vector<std::string> outs;
 		std::vector<ref::Bytes> out_addrs;
@@ -242,6 +287,7 @@ void prop(DP &dp, const ref::Bytes &sched, Ctx &ctx) {
 		s.settle();
 		size_t mark_stop = s.down.size();
 		s.stop();
+		if (!alt_written().empty()) ctx.fail("NOOP: bidib_stop wrote " + std::to_string(alt_written().size()) + " bytes to the callbacks of a start call that was made while the library was running");
 		std::string an = lifecycle_anomalies(true);
 		if (!an.empty()) ctx.fail("LIFECYCLE after stop of session " + std::to_string(k) + ": " + an);
 		if (vf_threads_created() - created0 != vf_threads_joined() - joined0)
@@ -295,6 +341,7 @@ void prop(DP &dp, const ref::Bytes &sched, Ctx &ctx) {
 	if (diff_flush) ctx.tag("sessions-with-different-auto-flush");
 	if (had_failed_then_ok) ctx.tag("failed-start-then-successful-start");
 	if (repeated) ctx.tag("recipe-repeated");
+	if (mid_start) ctx.tag("start-while-running-with-pending-work");
 	ctx.count("sessions", (long) nsess);
 	ctx.nontrivial = (nsess >= 2 && diff_flush) || had_failed_then_ok;
 	ctx.hash_src = ctx.desc.str() + hex(dp.p, dp.n);
